@@ -141,6 +141,9 @@ func genCase(t *rapid.T, nodeFailure bool) Case {
 		c.Nodes = 2
 	}
 	nmp := rapid.IntRange(2, 3).Draw(t, "tenants")
+	// mount-point names are free-form strings of the credential store: hierarchical names too
+	// (no name is a level-prefix of another, otherwise the tenants' topic spaces overlap by design)
+	names := rapid.SampledFrom([][]string{mountNames, mountNames, {"customers/acme", "customers/globex", ""}, {"t/1/x", "t/2", "u"}}).Draw(t, "mountNames")
 	connected := map[int]bool{}
 	payload := 0
 	n := rapid.IntRange(6, 30).Draw(t, "steps")
@@ -148,7 +151,7 @@ func genCase(t *rapid.T, nodeFailure bool) Case {
 	for i := 0; i < n; i++ {
 		ci := rapid.IntRange(0, c.Clients-1).Draw(t, "client")
 		if !connected[ci] {
-			st := sim.Step{Op: "connect", C: ci, Node: rapid.IntRange(0, c.Nodes-1).Draw(t, "node"), MP: mountNames[ci%nmp], ClientID: fmt.Sprintf("id%d", ci/nmp), KeepAlive: 600}
+			st := sim.Step{Op: "connect", C: ci, Node: rapid.IntRange(0, c.Nodes-1).Draw(t, "node"), MP: names[ci%nmp], ClientID: fmt.Sprintf("id%d", ci/nmp), KeepAlive: 600}
 			if rapid.IntRange(0, 2).Draw(t, "will") == 0 {
 				st.Will = &sim.Will{Topic: rapid.SampledFrom(topics).Draw(t, "willTopic"), Payload: fmt.Sprintf("will-%d", ci), QoS: 0, Retain: rapid.IntRange(0, 3).Draw(t, "willRetain") == 0}
 			}
@@ -163,7 +166,7 @@ func genCase(t *rapid.T, nodeFailure bool) Case {
 			a := rapid.IntRange(0, nmp-1).Draw(t, "dyingTenant")
 			b := (a + rapid.IntRange(1, nmp-1).Draw(t, "arrivingTenant")) % nmp
 			payload++
-			c.Steps = append(c.Steps, sim.Step{Op: "recycle", Node: rapid.IntRange(0, c.Nodes-1).Draw(t, "node"), MP: mountNames[a], ClientID: mountNames[b],
+			c.Steps = append(c.Steps, sim.Step{Op: "recycle", Node: rapid.IntRange(0, c.Nodes-1).Draw(t, "node"), MP: names[a], ClientID: names[b],
 				C: rapid.IntRange(1, 8).Draw(t, "dying"), IdleMs: int64(rapid.SampledFrom([]int{1, 8, 30}).Draw(t, "arriving")),
 				Topic: rapid.SampledFrom(topics).Draw(t, "topic"), Payload: fmt.Sprintf("p%d", payload)})
 		case x < 5:
